@@ -368,7 +368,12 @@ func ContinueReadBody(req *protocol.Request, r network.Reader, maxBodySize int, 
 
 	if req.Header.ContentLength() == -1 {
 		err = ext.ReadTrailer(req.Header.Trailer(), r)
-		if err != nil && err != io.EOF {
+		if err != nil {
+			// also when the peer closed inside the trailer section: the message is incomplete (RFC 7230, section 3.4),
+			// and what was received of it must not be taken for the next request
+			if err == io.EOF {
+				err = io.ErrUnexpectedEOF
+			}
 			return err
 		}
 	}
